@@ -678,8 +678,29 @@ def c20(sc, tier, seed):
     scen = [op['life'] for op in tlc_json_lines(out) if 'life' in op]
     if not scen:
         raise Inconclusive('Lifecycle produced no scenario')
+    # two port slots: instances alive side by side, one of them stopped (Lifecycle2.cfg)
+    out2, st2 = run_tlc(sc, 'Lifecycle', open(os.path.join(SPEC, 'Lifecycle2.cfg')).read(), timeout=600, workers=4, tag='Lifecycle2')
+    require_tlc_clean(st2, 'Lifecycle (two ports)')
+    v.add_tlc('Lifecycle (two ports)', st2)
+    scen2 = [op['life'] for op in tlc_json_lines(out2) if 'life' in op]
+    # of those, the ones in which a client of the OTHER instance is connected when an instance stops
+    def cross(s_):
+        inst_of_port, conn_of = {}, {}
+        for a in s_:
+            if a['a'] == 'start':
+                inst_of_port[a['p']] = a['i']
+            elif a['a'] == 'connect':
+                conn_of[a['c']] = inst_of_port.get(a['p'])
+            elif a['a'] in ('close', 'quit'):
+                if any(i_ != a['i'] for i_ in conn_of.values()):
+                    return True
+                inst_of_port = {p_: i_ for p_, i_ in inst_of_port.items() if i_ != a['i']}
+                conn_of = {c_: i_ for c_, i_ in conn_of.items() if i_ != a['i']}
+        return False
+    scen2 = [s_ for s_ in scen2 if cross(s_)]
     rnd = _r.Random(seed)
     rnd.shuffle(scen)
+    rnd.shuffle(scen2)
     # scenarios with clients connected at a close first
     def weight(s_):
         open_, w_ = set(), 0
@@ -692,11 +713,13 @@ def c20(sc, tier, seed):
     scen.sort(key=weight)
     n = 160 if tier == 'quick' else 2500
     chosen = scen[:n // 2] + rnd.sample(scen[n // 2:], min(n - n // 2, len(scen) - n // 2))
+    # every way of stopping: make sure both Close() and the quit channel are among the first scenarios
+    chosen += scen2[:(60 if tier == 'quick' else 1200)]
     base = int(os.environ.get('VERIF_PORT', 21000)) + 2300
 
     def run_one(arg):
         k, s_ = arg
-        port = base + 4 * (k % 64)
+        port = base + 5 * (k % 64)
         try:
             p = subprocess.run([exe, 'lifehost', str(port), json.dumps(s_)], stdout=subprocess.PIPE, stderr=subprocess.PIPE, text=True, timeout=40)
         except subprocess.TimeoutExpired:
@@ -708,7 +731,7 @@ def c20(sc, tier, seed):
     nontriv = 0
     for s_, ob, rc, err in results:
         v.cov['evaluations'] += 1
-        desc = ' '.join(a['a'] + str(a.get('i', a.get('c', ''))) + (':' + a['act'] if 'act' in a else '') for a in s_)
+        desc = ' '.join(a['a'] + str(a.get('i', a.get('c', ''))) + (':' + a['act'] if 'act' in a else '') + ('@p%d' % a['p'] if a.get('p', 1) != 1 else '') for a in s_)
         if ob is None or rc == 'timeout':
             v.record_violation({'scenario': s_}, {'fail': {'status': 'viol', 'cmd': desc, 'detail': 'scenario host did not finish (%s): %s' % (rc, err[-300:])}}, engine='life')
             continue
@@ -721,9 +744,13 @@ def c20(sc, tier, seed):
                 problems.append('successor instance %s is not empty: DBSIZE %s' % (o.get('i'), o.get('dbsize')))
             if o['a'] == 'start' and ('dial_err' in o or 'dbsize_err' in o):
                 problems.append('started instance %s does not serve: %s' % (o.get('i'), o.get('dial_err') or o.get('dbsize_err')))
-            if o['a'] == 'close':
+            if o['a'] in ('close', 'quit'):
                 if not o.get('returned') or o.get('ms', 0) > 2000:
-                    problems.append('Close() of instance %s did not return within 2 s' % o.get('i'))
+                    problems.append('%s of instance %s did not return within 2 s' % ('Close()' if o['a'] == 'close' else 'WaitForTermination() after the quit signal', o.get('i')))
+                for pr in o.get('other_conns', []):
+                    nontriv += 1
+                    if not pr.get('alive'):
+                        problems.append('stopping instance %s affected connection %s (%s) of instance %s: %s' % (o.get('i'), pr['c'], pr['act'], pr.get('of'), pr.get('detail', '')))
                 if o.get('port_still_accepts'):
                     problems.append('the port still accepts connections after Close()')
                 for pr in o.get('old_conns', []):
@@ -756,7 +783,7 @@ def c20(sc, tier, seed):
     v.assumptions = ['Close() is given 2 s (watchdog); an old connection is probed with the natural next command of its activity (GET / rest of the pipeline / EXEC / wait for the blocked reply) for 0.5 s',
                      'each scenario runs in its own child process (a failed listen calls os.Exit(1) in the emulator and is observed as the death of that child)',
                      'the two-instances-alive part (data, CLIENT LIST, CLIENT KILL across instances) is a fixed epilogue of every scenario, not enumerated by the model']
-    return v.finish(rule='TLC enumerates every behaviour of Lifecycle.tla with 6 actions over 2 instances on one port and 3 clients in the activities idle / mid-pipeline / inside MULTI / blocked with timeout 0 (3648 scenarios with at least one Close), checks ClosedMeansDisconnected, PortConsistent and NoSharedData on the model; scenarios (those with most clients connected at a Close first, then seeded) are executed against the public API in child processes. Non-trivial = connection probed after a Close.',
+    return v.finish(rule='(Second configuration, Lifecycle2.cfg: two port slots, 2 instances side by side, 2 clients, 5 actions: the scenarios in which a client of the OTHER instance is connected while an instance is stopped; StopIsLocal.) Stopping is Close() or the quit channel given to NewEmulator followed by WaitForTermination(). TLC enumerates every behaviour of Lifecycle.tla with 6 actions over 2 instances on one port and 3 clients in the activities idle / mid-pipeline / inside MULTI / blocked with timeout 0 (3648 scenarios with at least one Close), checks ClosedMeansDisconnected, PortConsistent and NoSharedData on the model; scenarios (those with most clients connected at a Close first, then seeded) are executed against the public API in child processes. Non-trivial = connection probed after a Close.',
                     level='fault_enumeration')
 
 
